@@ -18,7 +18,7 @@ namespace {
   using c07::R;
   using c07::System;
   using c07::Vec;
-  constexpr R Ksolve = 256;
+  constexpr R Ksolve = 512;
   constexpr int kmax = 20, condexp = 9;
 
   template <typename T>
